@@ -41,7 +41,7 @@ SPEC = dict(
                 "`optionalCycle_null_stays_null`; Singleton: `singletonCycle_initial_only_first_tick`), proved on the "
                 "transcription of hydro_lang's create_source_with_initial (`from_previous_tick.or(initial.filter_if("
                 "optional_first_tick(()).is_some()))` out of ChainFirst / DeferTick / SingletonSource{first_tick_only} / "
-                "CrossSingleton nodes), whose source text — with filter_if, is_some, into_singleton, zip/or inside a tick, "
+                "CrossSingleton nodes), whose source text — with filter_if, is_some, into_singleton, or, unwrap_or, zip inside a tick, "
                 "Tick::cycle[_with_initial], optional_first_tick — is re-extracted every run (`cycle_sources_match`); "
                 "`Optional::or`/`unwrap_or` = first non-null (`tick_op_eq_list_op_or`), `tick.singleton` every tick / "
                 "`optional_first_tick` first tick only (`singletonSource_every_tick_firstTick_only_first`); "
